@@ -13,6 +13,7 @@ mod alloc_count;
 mod gen_tables;
 mod ops;
 mod show;
+mod stream;
 use show::*;
 
 pub type W<'a> = &'a mut dyn FW;
@@ -299,6 +300,8 @@ pub fn run_case(o: W, g: &[Vec<Tok>]) -> std::fmt::Result {
         }
         ("ident", 3) => with_fam!(h[1].w(), E, ops::run_ident::<E>(o, h[2].b())),
         ("bytes", 3) => with_fam!(h[1].w(), E, ops::run_bytes::<E>(o, h[2].b(), &g[1..])),
+        ("stream", 4) => with_fam!(h[1].w(), E, stream::run_stream::<E>(o, h[2].b(), h[3].w(), &g[1..])),
+        ("bytesc", 3) => with_fam!(h[1].w(), E, stream::run_bytesc::<E>(o, h[2].b(), &g[1..])),
         ("notes", 5) => {
             let c = class_of(h[2].n()).ok_or(std::fmt::Error)?;
             with_spec!(h[1].w(), e, ops::run_notes(o, e, c, h[3].us(), h[4].b(), &g[1..]))
